@@ -381,4 +381,344 @@ def exSecondOrder : Prog :=
 
 example : check exSecondOrder = .error ⟨3, .callMismatch⟩ := rfl
 
+/-! ## D11 — tuples, exact element types, ranges, array literal shape, for-in, pipes, marks -/
+
+/-- the branches of `c ? a : b` / `if (c) a else b` must have types `expr_comb_cmp_and_set`
+unifies: whatever rule `combCmp` answers is the diagnostic, at the conditional -/
+theorem rejects_branch_mismatch (P : ProgCtx) (Γ : Env) (ln : Ln) (c t e : Expr) (cc ct ce : Comb)
+    (r : Rule) (hreach : P.holeEnv = .ok Γ)
+    (hc : tc Γ c = .ok cc) (ht : tc Γ t = .ok ct) (he : tc Γ e = .ok ce)
+    (hb : isBool cc.ct = true) (hcmp : combCmp ct.ct ce.ct = .error r) :
+    check (P.plug (.cond ln c t e)) = .error ⟨ln, r⟩ :=
+  P.plug_error Γ _ _ hreach (tc_cond_branches Γ ln c t e cc ct ce r hc ht he hb hcmp)
+
+/-- … in particular two tuples of different shape (number of members) or with a member of a
+different type (repair b235435: the pinned tree unified them to the left one) -/
+theorem rejects_branch_tuples (P : ProgCtx) (Γ : Env) (ln : Ln) (c t e : Expr) (cc ct ce : Comb)
+    (ms1 ms2 : TyList) (hreach : P.holeEnv = .ok Γ)
+    (hc : tc Γ c = .ok cc) (ht : tc Γ t = .ok ct) (he : tc Γ e = .ok ce) (hb : isBool cc.ct = true)
+    (h1 : ct.ct = .val (.tuple ms1)) (h2 : ce.ct = .val (.tuple ms2))
+    (hdiff : ms1.length ≠ ms2.length ∨ paramListCmp false ms1 ms2 = false) :
+    check (P.plug (.cond ln c t e)) = .error ⟨ln, .condBranches⟩ := by
+  apply rejects_branch_mismatch P Γ ln c t e cc ct ce _ hreach hc ht he hb
+  rw [h1, h2]
+  apply combCmp_tuple
+  cases hdiff with
+  | inl h => exact paramListCmp_length false ms1 ms2 h
+  | inr h => exact h
+
+/-- … and two ranges of different dimension (repair b996419: the pinned tree read the
+CONDITION's type there) -/
+theorem rejects_branch_ranges (P : ProgCtx) (Γ : Env) (ln : Ln) (c t e : Expr) (cc ct ce : Comb)
+    (n1 n2 : Nat) (hreach : P.holeEnv = .ok Γ)
+    (hc : tc Γ c = .ok cc) (ht : tc Γ t = .ok ct) (he : tc Γ e = .ok ce) (hb : isBool cc.ct = true)
+    (h1 : ct.ct = .val (.range n1)) (h2 : ce.ct = .val (.range n2)) (hdiff : n1 ≠ n2) :
+    check (P.plug (.cond ln c t e)) = .error ⟨ln, .branchRanges⟩ := by
+  apply rejects_branch_mismatch P Γ ln c t e cc ct ce _ hreach hc ht he hb
+  rw [h1, h2]; exact combCmp_range n1 n2 hdiff
+
+/-- … arrays / slices of different dimension or element type, function types that differ -/
+theorem rejects_branch_arrays (P : ProgCtx) (Γ : Env) (ln : Ln) (c t e : Expr) (cc ct ce : Comb)
+    (n1 n2 : Nat) (c1 c2 : PCst) (e1 e2 : Ty) (hreach : P.holeEnv = .ok Γ)
+    (hc : tc Γ c = .ok cc) (ht : tc Γ t = .ok ct) (he : tc Γ e = .ok ce) (hb : isBool cc.ct = true)
+    (h1 : ct.ct = .val (.array n1 c1 e1)) (h2 : ce.ct = .val (.array n2 c2 e2))
+    (hdiff : (n1 == n2 && paramCmp false c1 e1 c2 e2) = false) :
+    check (P.plug (.cond ln c t e)) = .error ⟨ln, .branchArrays⟩ := by
+  apply rejects_branch_mismatch P Γ ln c t e cc ct ce _ hreach hc ht he hb
+  rw [h1, h2]; exact combCmp_array n1 n2 c1 c2 e1 e2 hdiff
+
+theorem rejects_branch_slices (P : ProgCtx) (Γ : Env) (ln : Ln) (c t e : Expr) (cc ct ce : Comb)
+    (n1 n2 : Nat) (c1 c2 : PCst) (e1 e2 : Ty) (hreach : P.holeEnv = .ok Γ)
+    (hc : tc Γ c = .ok cc) (ht : tc Γ t = .ok ct) (he : tc Γ e = .ok ce) (hb : isBool cc.ct = true)
+    (h1 : ct.ct = .val (.slice n1 c1 e1)) (h2 : ce.ct = .val (.slice n2 c2 e2))
+    (hdiff : (n1 == n2 && paramCmp false c1 e1 c2 e2) = false) :
+    check (P.plug (.cond ln c t e)) = .error ⟨ln, .branchSlices⟩ := by
+  apply rejects_branch_mismatch P Γ ln c t e cc ct ce _ hreach hc ht he hb
+  rw [h1, h2]; exact combCmp_slice n1 n2 c1 c2 e1 e2 hdiff
+
+theorem rejects_branch_functions (P : ProgCtx) (Γ : Env) (ln : Ln) (c t e : Expr) (cc ct ce : Comb)
+    (ps1 ps2 : TyList) (c1 c2 : PCst) (r1 r2 : Ty) (hreach : P.holeEnv = .ok Γ)
+    (hc : tc Γ c = .ok cc) (ht : tc Γ t = .ok ct) (he : tc Γ e = .ok ce) (hb : isBool cc.ct = true)
+    (h1 : ct.ct = .val (.func ps1 c1 r1)) (h2 : ce.ct = .val (.func ps2 c2 r2))
+    (hdiff : funcCmp ps1 c1 r1 ps2 c2 r2 = false) :
+    check (P.plug (.cond ln c t e)) = .error ⟨ln, .branchFuncs⟩ := by
+  apply rejects_branch_mismatch P Γ ln c t e cc ct ce _ hreach hc ht he hb
+  rw [h1, h2]; exact combCmp_func ps1 ps2 c1 c2 r1 r2 hdiff
+
+/-- the arms of an exhaustive `match` are compared the same way, the first with each later one -/
+theorem rejects_match_arms_mismatch (P : ProgCtx) (Γ : Env) (ln : Ln) (s : Expr) (g : Guard)
+    (gs : GuardList) (cs : Comb) (en : String) (a : Comb) (rest : List Comb) (r : Rule)
+    (hreach : P.holeEnv = .ok Γ) (hs : tc Γ s = .ok cs) (hen : cs.ct = .val (.enum en))
+    (hg : tcGuards Γ (.cons g gs) = .ok (a :: rest)) (hsame : guardsSameEnum en (.cons g gs) = .ok ())
+    (hex : exhaustive Γ en (.cons g gs) = true) (hcmp : armsCmp a.ct rest = .error r) :
+    check (P.plug (.match_ ln s (.cons g gs))) = .error ⟨ln, r⟩ :=
+  P.plug_error Γ _ _ hreach (tc_match_arms Γ ln s g gs cs en a rest r hs hen hg hsame hex hcmp)
+
+/-- RECORDED false rejection (not a rule): `param_cmp` has no case for `long` and none for
+`double`, so two IDENTICAL types that mention one of them compare as different — an array of
+long is not accepted where an array of long is declared, `c ? [1L] : [2L]` is refused.  The
+model mirrors the code; seed C06-7 ("add the missing cases" as one case) is the wrong repair. -/
+theorem param_cmp_long_double_false_rejection_counterexample :
+    paramCmp false .var .long .var .long = false ∧ paramCmp false .var .double .var .double = false ∧
+    paramExprCmp true .const (.array 1 .var .long) 1 ⟨.val (.array 1 .var .long), .temp⟩ = .fail none ∧
+    combCmp (.val (.array 1 .var .long)) (.val (.array 1 .var .long)) = .error .branchArrays ∧
+    -- and, as it should be, long is not double inside a container
+    paramCmp false .var .long .var .double = false :=
+  ⟨rfl, rfl, rfl, rfl, rfl⟩
+
+/-- a tuple literal with a number of values different from its declared members -/
+theorem rejects_tuple_arity (P : ProgCtx) (Γ : Env) (ln : Ln) (elems : ExprList) (ms ms' : TyList)
+    (cs : List (Ln × Comb)) (hreach : P.holeEnv = .ok Γ)
+    (he : tcArgs Γ elems = .ok cs) (hm : resolveTys Γ ms.defaultVar = .ok ms')
+    (hlen : ms'.toList.length ≠ cs.length) :
+    check (P.plug (.tuple ln elems ms)) = .error ⟨ln, .tupleForm⟩ :=
+  P.plug_error Γ _ _ hreach (tc_tuple_arity Γ ln elems ms ms' cs he hm hlen)
+
+/-- a tuple literal with a value of a kind its declared member does not accept; the diagnostic
+is at the literal or at the value -/
+theorem rejects_tuple_member_kind (P : ProgCtx) (Γ : Env) (ln : Ln) (elems : ExprList) (ms ms' : TyList)
+    (cs : List (Ln × Comb)) (hreach : P.holeEnv = .ok Γ)
+    (he : tcArgs Γ elems = .ok cs) (hm : resolveTys Γ ms.defaultVar = .ok ms')
+    (hbad : SomeArgRejected ms'.toList cs) :
+    ∃ d, check (P.plug (.tuple ln elems ms)) = .error d ∧ (d.line = ln ∨ ∃ a ∈ cs, d.line = a.1) := by
+  obtain ⟨d, hd, hl⟩ := tc_tuple_kind Γ ln elems ms ms' cs he hm hbad
+  exact ⟨d, P.plug_error Γ _ _ hreach hd, hl⟩
+
+/-- projection `t[i]` with a literal index beyond the members of the tuple -/
+theorem rejects_tuple_index (P : ProgCtx) (Γ : Env) (ln iln : Ln) (e : Expr) (i : Nat) (c : Comb)
+    (ms : TyList) (hreach : P.holeEnv = .ok Γ) (he : tc Γ e = .ok c) (hct : c.ct = .val (.tuple ms))
+    (hi : ms.length ≤ i) :
+    check (P.plug (.proj ln e iln i)) = .error ⟨ln, .tupleIndex⟩ :=
+  P.plug_error Γ _ _ hreach (tc_proj_bounds Γ ln iln e i c ms he hct (TyList.get?_none ms i hi))
+
+/-- array literal shape (tcheckarr.c): a literal of rows `[ r_1, …, r_k, r_last ] : T` (each row
+a list of well-typed elements) in which some row has not the length of the last one — an EMPTY
+row included (seeds C01-6 / C12-7 dropped exactly that disjunct) — is refused.  The C code
+prints this first diagnostic at line 0 (a row carries no line), then "array is not well formed"
+at the literal. -/
+theorem rejects_array_shape (P : ProgCtx) (Γ : Env) (ln : Ln) (elems : ExprList) (ec : PCst)
+    (ety et : Ty) (cnts : List Nat) (n : Nat) (leaves : List Item) (hreach : P.holeEnv = .ok Γ)
+    (hrows : tcRows Γ elems = .ok [(cnts ++ [n]).map Item.sub, leaves])
+    (hty : resolveTy Γ ety = .ok et)
+    (hleaves : checkDeepest ec.normVar et leaves.reverse = .ok ())
+    (hdiff : ∃ m ∈ cnts, m ≠ n) :
+    check (P.plug (.array ln elems ec ety)) = .error ⟨0, .arrayShape⟩ :=
+  P.plug_error Γ _ _ hreach (tc_array_ragged Γ ln elems ec ety et cnts n leaves hrows hty hleaves hdiff)
+
+/-- for-in constness (tcforin.c): the iterator of `for (x in a)` over a CONST one-dimensional
+array (`let` binding, parameter not declared `var`) is CONST; `x = …` in the body is refused at
+the assignment (seeds C06-6 / C06-9 lost exactly this) -/
+theorem rejects_forin_iterator_assign (P : ProgCtx) (Γ : Env) (ln la lx : Ln) (x : String)
+    (a rhs : Expr) (ca cr : Comb) (ec : PCst) (et : Ty) (hreach : P.holeEnv = .ok Γ)
+    (ha : tc Γ a = .ok ca) (hct : ca.ct = .val (.array 1 ec et)) (hconst : ca.cst = .const)
+    (hr : tc (Γ.push [(x, .forin ⟨.val et, .const⟩)]) rhs = .ok cr) :
+    check (P.plug (.forIn ln x a (.ass la (.id lx x) rhs))) = .error ⟨la, .assignConst⟩ :=
+  P.plug_error Γ _ _ hreach (tc_forin_assign_const Γ ln la lx x a rhs ca cr 1 ec et ha hct rfl hconst hr)
+
+/-- … and the iterator of a for-in over a range, always -/
+theorem rejects_forin_range_iterator_assign (P : ProgCtx) (Γ : Env) (ln la lx : Ln) (x : String)
+    (a rhs : Expr) (ca cr : Comb) (hreach : P.holeEnv = .ok Γ)
+    (ha : tc Γ a = .ok ca) (hct : ca.ct = .val (.range 1))
+    (hr : tc (Γ.push [(x, .forin ⟨.val .int, .const⟩)]) rhs = .ok cr) :
+    check (P.plug (.forIn ln x a (.ass la (.id lx x) rhs))) = .error ⟨la, .assignConst⟩ :=
+  P.plug_error Γ _ _ hreach (tc_forin_assign_range Γ ln la lx x a rhs ca cr ha hct hr)
+
+/-- pipe arity (`param_list_expr_expr_list_cmp`): `l |> f(args)` with `l` not a tuple and accepted
+by the first parameter: too few AND too many explicit arguments (seed C06-5 dropped the surplus
+test) are refused at the pipe -/
+theorem rejects_pipe_arity (P : ProgCtx) (Γ : Env) (ln : Ln) (l f : Expr) (args : ExprList)
+    (cl cf : Comb) (cs : List (Ln × Comb)) (pc : PCst) (pt : Ty) (ps : TyList) (rc : PCst) (r : Ty)
+    (hreach : P.holeEnv = .ok Γ)
+    (hl : tc Γ l = .ok cl) (hnt : ∀ ms, cl.ct ≠ .val (.tuple ms))
+    (hf : tc Γ f = .ok cf) (hct : cf.ct = .val (.func (.cons pc pt ps) rc r))
+    (ha : tcArgs Γ args = .ok cs) (hfirst : paramExprCmp true pc pt l.ln cl = .ok)
+    (hlen : ps.toList.length ≠ cs.length) :
+    check (P.plug (.pipe ln l f args)) = .error ⟨ln, .callMismatch⟩ :=
+  P.plug_error Γ _ _ hreach (tc_pipe_arity Γ ln l f args cl cf cs pc pt ps rc r hl hnt hf hct ha hfirst hlen)
+
+/-- a function without parameters takes no piped value (scalar or tuple) -/
+theorem rejects_pipe_into_nullary (P : ProgCtx) (Γ : Env) (ln : Ln) (l f : Expr) (args : ExprList)
+    (cl cf : Comb) (cs : List (Ln × Comb)) (rc : PCst) (r : Ty) (hreach : P.holeEnv = .ok Γ)
+    (hl : tc Γ l = .ok cl) (hf : tc Γ f = .ok cf) (hct : cf.ct = .val (.func .nil rc r))
+    (ha : tcArgs Γ args = .ok cs) :
+    check (P.plug (.pipe ln l f args)) = .error ⟨ln, .callMismatch⟩ :=
+  P.plug_error Γ _ _ hreach (tc_pipe_noparams Γ ln l f args cl cf cs rc r hl hf hct ha)
+
+/-- tuple unpacking: `t |> f(args)` — members and explicit arguments together must be as many
+as the parameters -/
+theorem rejects_pipe_tuple_arity (P : ProgCtx) (Γ : Env) (ln : Ln) (l f : Expr) (args : ExprList)
+    (cl cf : Comb) (cs : List (Ln × Comb)) (ms ps : TyList) (rc : PCst) (r : Ty)
+    (hreach : P.holeEnv = .ok Γ)
+    (hl : tc Γ l = .ok cl) (hlt : cl.ct = .val (.tuple ms))
+    (hf : tc Γ f = .ok cf) (hct : cf.ct = .val (.func ps rc r)) (ha : tcArgs Γ args = .ok cs)
+    (hlen : ps.toList.length ≠ ms.toList.length + cs.length) :
+    check (P.plug (.pipe ln l f args)) = .error ⟨ln, .callMismatch⟩ :=
+  P.plug_error Γ _ _ hreach (tc_pipe_tuple_arity Γ ln l f args cl cf cs ms ps rc r hl hlt hf hct ha hlen)
+
+/-- match exhaustiveness on the SHARED mark flags (tcmatch.c): whatever matches were checked
+before — any number, over any enums, with or without `else`, leaving whatever marks `m0` and
+their own marks behind — the exhaustiveness test of a match without `else` that leaves the
+enumerator `it` without a guard answers "not covered", and the program is refused at the match.
+(Seeds C06-4 / C01-7 made the verdict depend on the earlier matches.)  Guard list not empty:
+see `rejects_match_missing_counterexample`. -/
+theorem rejects_missing_enumerator (P : ProgCtx) (Γ : Env) (ln : Ln) (s : Expr) (g : Guard)
+    (gs : GuardList) (cs : Comb) (en : String) (arms : List Comb) (it : String)
+    (earlier : List (String × GuardList)) (m0 : Marks)
+    (hreach : P.holeEnv = .ok Γ) (hs : tc Γ s = .ok cs) (hen : cs.ct = .val (.enum en))
+    (hg : tcGuards Γ (.cons g gs) = .ok arms) (hsame : guardsSameEnum en (.cons g gs) = .ok ())
+    (hnoelse : hasElse (.cons g gs) = false)
+    (hit : it ∈ Γ.enumItems en) (hmiss : coversItem it (.cons g gs) = false) :
+    (exhaustiveM Γ en (.cons g gs) (runMatches Γ earlier m0)).1 = false ∧
+    check (P.plug (.match_ ln s (.cons g gs))) = .error ⟨ln, .matchMissing⟩ := by
+  have hex : exhaustive Γ en (.cons g gs) = false :=
+    (not_exhaustive_iff Γ en _).2 ⟨hnoelse, it, hit, hmiss⟩
+  exact ⟨by rw [exhaustiveM_fst]; exact hex,
+    P.plug_error Γ _ _ hreach (tc_match_missing Γ ln s g gs cs en arms hs hen hg hsame hex)⟩
+
+/-! ### known acceptances of the tree (corpus/tc_known), visible as theorems: the model, which
+mirrors the code, ACCEPTS each of these programs that break a static rule -/
+
+def exArr4 : Expr := .array 3 (.cons (.litInt 3) (.cons (.litInt 3) (.cons (.litInt 3) (.cons (.litInt 3) .nil)))) .dflt .int
+def exMain (body : SeqList) : Func := .mk 1 "main" [] .dflt .int (.seq 6 body) .nil
+
+/-- `let a = [1,2,3,4] : int; a[1 .. 2][0] = 7; a[1]` — an element of a `let` array assigned
+through a slice of it (`expr_slice_check_type` leaves the slice TEMP) -/
+theorem const_lost_through_slice_assign_accepted_counterexample :
+    check ⟨[], .cons (exMain
+      (.cons (.bind 3 false "a" exArr4)
+      (.cons (.expr (.ass 4 (.proj 4 (.slice 4 (.id 4 "a") (.cons (.litInt 4) (.cons (.litInt 4) .nil))) 4 0) (.litInt 4)))
+      (.cons (.expr (.proj 5 (.id 5 "a") 5 1)) .nil)))) .nil⟩ = .ok () := by rfl
+
+/-- `for (e in a[1 .. 2]) { e = 0 }` over a slice of a `let` array -/
+theorem const_lost_through_slice_forin_accepted_counterexample :
+    check ⟨[], .cons (exMain
+      (.cons (.bind 3 false "a" exArr4)
+      (.cons (.expr (.forIn 4 "e" (.slice 4 (.id 4 "a") (.cons (.litInt 4) (.cons (.litInt 4) .nil)))
+                (.seq 4 (.cons (.expr (.ass 4 (.id 4 "e") (.litInt 4))) .nil))))
+      (.cons (.expr (.proj 5 (.id 5 "a") 5 1)) .nil)))) .nil⟩ = .ok () := by rfl
+
+/-- `let t = (1, 2) : (int, int); t |> f()` with `f(var a : int, var b : int)`: members of a
+`let` tuple reach `var` parameters (the tuple pipe compares with `const_cmp = false`) -/
+theorem const_tuple_members_to_var_params_accepted_counterexample :
+    check ⟨[], .cons (.mk 1 "f" [⟨1, "a", .var, .int⟩, ⟨1, "b", .var, .int⟩] .dflt .int
+        (.seq 1 (.cons (.expr (.ass 1 (.id 1 "a") (.litInt 1))) (.cons (.expr (.id 1 "a")) .nil))) .nil)
+      (.cons (.mk 2 "main" [] .dflt .int (.seq 6
+        (.cons (.bind 4 false "t" (.tuple 4 (.cons (.litInt 4) (.cons (.litInt 4) .nil))
+            (.cons .dflt .int (.cons .dflt .int .nil))))
+        (.cons (.expr (.pipe 5 (.id 5 "t") (.id 5 "f") .nil))
+        (.cons (.expr (.litInt 6)) .nil)))) .nil) .nil)⟩ = .ok () := by rfl
+
+/-- `func f() -> var [_] : int { [1,2,3] : int } catch (division_by_zero) { let a = [1] : int; a }`:
+the value of a catch clause is compared with `const_cmp = false` -/
+theorem catch_clause_const_for_var_result_accepted_counterexample :
+    check ⟨[], .cons (.mk 1 "f" [] .var (.array 1 .dflt .int)
+        (.seq 1 (.cons (.expr (.array 1 (.cons (.litInt 1) .nil) .dflt .int)) .nil))
+        (.cons (.mk 1 "division_by_zero"
+          (.seq 1 (.cons (.bind 1 false "a" (.array 1 (.cons (.litInt 1) .nil) .dflt .int))
+                  (.cons (.expr (.id 1 "a")) .nil)))) .nil))
+      (.cons (.mk 2 "main" [] .dflt .int (.seq 2 (.cons (.expr (.litInt 2)) .nil)) .nil) .nil)⟩ = .ok () := by rfl
+
+/-- … while the same `let` array as the BODY's value is refused (so the rule exists) -/
+example :
+    check ⟨[], .cons (.mk 1 "f" [] .var (.array 1 .dflt .int)
+        (.seq 1 (.cons (.bind 1 false "a" (.array 1 (.cons (.litInt 1) .nil) .dflt .int))
+                (.cons (.expr (.id 1 "a")) .nil))) .nil) .nil⟩ = .error ⟨1, .constToVarParam⟩ := by rfl
+
+/-! ### non-vacuity of the D11 theorems, in the five-level context `exP` -/
+
+def exTup (a b : Expr) (ta tb : Ty) : Expr :=
+  .tuple 13 (.cons a (.cons b .nil)) (.cons .dflt ta (.cons .dflt tb .nil))
+def exTy2 (ta tb : Ty) : TyList := .cons .var ta (.cons .var tb .nil)
+
+-- p == 1 ? (1, 2) : (int, int) : ("s", 1.5, 3) : (string, float, int)
+example : check (exP.plug (.cond 13 (.litBool 13) (exTup exOne exOne .int .int)
+      (.tuple 13 (.cons (.litString 13) (.cons (.litFloat 13) (.cons exOne .nil)))
+        (.cons .dflt .string (.cons .dflt .float (.cons .dflt .int .nil))))))
+    = .error ⟨13, .condBranches⟩ :=
+  rejects_branch_tuples exP exΓ 13 _ _ _ ⟨.val .bool, .temp⟩ ⟨.val (.tuple (exTy2 .int .int)), .temp⟩
+    ⟨.val (.tuple (.cons .var .string (.cons .var .float (.cons .var .int .nil)))), .temp⟩ _ _
+    exP_reaches rfl rfl rfl rfl rfl rfl (.inl (by decide))
+-- same shape, one member of another type
+example : check (exP.plug (.cond 13 (.litBool 13) (exTup exOne exOne .int .int)
+      (exTup (.litString 13) exOne .string .int))) = .error ⟨13, .condBranches⟩ :=
+  rejects_branch_tuples exP exΓ 13 _ _ _ ⟨.val .bool, .temp⟩ ⟨.val (.tuple (exTy2 .int .int)), .temp⟩
+    ⟨.val (.tuple (exTy2 .string .int)), .temp⟩ _ _ exP_reaches rfl rfl rfl rfl rfl rfl (.inr rfl)
+-- true ? [1 .. 2] : [1 .. 2, 1 .. 3]
+example : check (exP.plug (.cond 13 (.litBool 13) (.range 13 (.cons exOne (.cons exOne .nil)))
+      (.range 13 (.cons exOne (.cons exOne (.cons exOne (.cons exOne .nil))))))) = .error ⟨13, .branchRanges⟩ :=
+  rejects_branch_ranges exP exΓ 13 _ _ _ ⟨.val .bool, .temp⟩ ⟨.val (.range 1), .temp⟩ ⟨.val (.range 2), .temp⟩
+    1 2 exP_reaches rfl rfl rfl rfl rfl rfl (by decide)
+-- true ? a : [[1]] : int     (one against two dimensions)
+example : check (exP.plug (.cond 13 (.litBool 13) (.id 13 "a")
+      (.array 13 (.cons (.sub (.cons exOne .nil)) .nil) .dflt .int))) = .error ⟨13, .branchArrays⟩ :=
+  rejects_branch_arrays exP exΓ 13 _ _ _ ⟨.val .bool, .temp⟩ ⟨.val (.array 1 .var .int), .const⟩
+    ⟨.val (.array 2 .var .int), .temp⟩ 1 2 .var .var .int .int exP_reaches rfl rfl rfl rfl rfl rfl rfl
+-- match e { E::A -> (1, 2) : (int, int); E::B -> ("s", 2) : (string, int); }
+example : check (exP.plug (.match_ 13 (.id 13 "e")
+      (.cons (.item 14 "E" "A" (exTup exOne exOne .int .int))
+      (.cons (.item 15 "E" "B" (exTup (.litString 15) exOne .string .int)) .nil))))
+    = .error ⟨13, .condBranches⟩ :=
+  rejects_match_arms_mismatch exP exΓ 13 _ _ _ ⟨.val (.enum "E"), .const⟩ "E"
+    ⟨.val (.tuple (exTy2 .int .int)), .temp⟩ [⟨.val (.tuple (exTy2 .string .int)), .temp⟩] _
+    exP_reaches rfl rfl rfl rfl rfl rfl
+-- (1, 2) : (int, int, int)
+example : check (exP.plug (.tuple 13 (.cons exOne (.cons exOne .nil))
+      (.cons .dflt .int (.cons .dflt .int (.cons .dflt .int .nil))))) = .error ⟨13, .tupleForm⟩ :=
+  rejects_tuple_arity exP exΓ 13 _ _ (.cons .var .int (.cons .var .int (.cons .var .int .nil)))
+    [(1, ⟨.val .int, .temp⟩), (1, ⟨.val .int, .temp⟩)] exP_reaches rfl rfl (by decide)
+-- ("s", 2) : (int, int): the diagnostic is at the value (line 14)
+example : check (exP.plug (exTup (.litString 14) exOne .int .int)) = .error ⟨14, .paramKind⟩ := rfl
+example : ∃ d, check (exP.plug (exTup (.litString 14) exOne .int .int)) = .error d ∧
+    (d.line = 13 ∨ ∃ a ∈ [(14, (⟨.val .string, .temp⟩ : Comb)), (1, ⟨.val .int, .temp⟩)], d.line = a.1) :=
+  rejects_tuple_member_kind exP exΓ 13 _ _ (exTy2 .int .int) _ exP_reaches rfl rfl
+    (.inl (by intro h; cases h with | num _ _ _ hb => simp [isNum] at hb))
+-- ((1, 2) : (int, int))[2]
+example : check (exP.plug (.proj 13 (exTup exOne exOne .int .int) 13 2)) = .error ⟨13, .tupleIndex⟩ :=
+  rejects_tuple_index exP exΓ 13 13 _ 2 ⟨.val (.tuple (exTy2 .int .int)), .temp⟩ _ exP_reaches rfl rfl (by decide)
+example : check (exP.plug (.proj 13 (exTup exOne exOne .int .int) 13 1)) = .ok () := rfl
+-- [ [ ], [ 1, 1 ] ] : int   (the literal of seed C01-6), [ [1], [1, 1] ] : int, and a rectangular one
+example : check (exP.plug (.array 13 (.cons (.sub .nil) (.cons (.sub (.cons exOne (.cons exOne .nil))) .nil)) .dflt .int))
+    = .error ⟨0, .arrayShape⟩ :=
+  rejects_array_shape exP exΓ 13 _ .dflt .int .int [0] 2 [.leaf 1 ⟨.val .int, .temp⟩, .leaf 1 ⟨.val .int, .temp⟩]
+    exP_reaches rfl rfl rfl ⟨0, by simp, by decide⟩
+example : check (exP.plug (.array 13 (.cons (.sub (.cons exOne .nil)) (.cons (.sub (.cons exOne (.cons exOne .nil))) .nil)) .dflt .int))
+    = .error ⟨0, .arrayShape⟩ := rfl
+example : check (exP.plug (.array 13 (.cons (.sub (.cons exOne (.cons exOne .nil))) (.cons (.sub .nil) .nil)) .dflt .int))
+    = .error ⟨0, .arrayShape⟩ := rfl
+example : check (exP.plug (.proj 13 (.sup 13 (.deref 13 (.sup 13
+      (.array 13 (.cons (.sub (.cons exOne (.cons exOne .nil))) (.cons (.sub (.cons exOne (.cons exOne .nil))) .nil)) .dflt .int))
+      (.cons exOne (.cons exOne .nil)))) 13 0)) = .error ⟨13, .derefNonArray⟩ := rfl
+-- for (y in a) y = 1     (a is a `let` array of the enclosing function)
+example : check (exP.plug (.forIn 13 "y" (.id 13 "a") (.ass 14 (.id 14 "y") exOne))) = .error ⟨14, .assignConst⟩ :=
+  rejects_forin_iterator_assign exP exΓ 13 14 14 "y" _ _ ⟨.val (.array 1 .var .int), .const⟩ ⟨.val .int, .temp⟩
+    .var .int exP_reaches rfl rfl rfl rfl
+example : check (exP.plug (.forIn 13 "y" (.range 13 (.cons exOne (.cons exOne .nil))) (.ass 14 (.id 14 "y") exOne)))
+    = .error ⟨14, .assignConst⟩ :=
+  rejects_forin_range_iterator_assign exP exΓ 13 14 14 "y" _ _ ⟨.val (.range 1), .temp⟩ ⟨.val .int, .temp⟩
+    exP_reaches rfl rfl rfl
+-- 1 |> g(1)   (g has one parameter: a surplus argument), 1 |> g() is fine
+example : check (exP.plug (.pipe 13 exOne (.id 13 "g") (.cons exOne .nil))) = .error ⟨13, .callMismatch⟩ :=
+  rejects_pipe_arity exP exΓ 13 _ _ _ ⟨.val .int, .temp⟩ ⟨.val (.func (.cons .const .int .nil) .const .int), .temp⟩
+    [(1, ⟨.val .int, .temp⟩)] .const .int .nil .const .int exP_reaches rfl (by intro ms h; cases h) rfl rfl rfl rfl
+    (by decide)
+example : check (exP.plug (.pipe 13 exOne (.id 13 "g") .nil)) = .ok () := rfl
+-- (1, 2) : (int, int) |> g()
+example : check (exP.plug (.pipe 13 (exTup exOne exOne .int .int) (.id 13 "g") .nil)) = .error ⟨13, .callMismatch⟩ :=
+  rejects_pipe_tuple_arity exP exΓ 13 _ _ _ ⟨.val (.tuple (exTy2 .int .int)), .temp⟩
+    ⟨.val (.func (.cons .const .int .nil) .const .int), .temp⟩ [] _ _ _ _ exP_reaches rfl rfl rfl rfl rfl (by decide)
+-- 1 |> (let func () -> int { 1 })()
+example : check (exP.plug (.pipe 13 exOne (.funcLit (.mk 13 "" [] .dflt .int (exSeq1 exOne) .nil)) .nil))
+    = .error ⟨13, .callMismatch⟩ :=
+  rejects_pipe_into_nullary exP exΓ 13 _ _ _ ⟨.val .int, .temp⟩ ⟨.val (.func .nil .const .int), .temp⟩ [] _ _
+    exP_reaches rfl rfl rfl rfl
+-- match e { E::A -> 1; } after two earlier matches over E (one with else naming B — the stale
+-- mark of seed C06-4 — one complete), starting from marks on both enumerators
+example : (exhaustiveM exΓ "E" (.cons (.item 14 "E" "A" exOne) .nil)
+      (runMatches exΓ [("E", .cons (.item 1 "E" "B" exOne) (.cons (.else_ 1 exOne) .nil)),
+                       ("E", .cons (.item 1 "E" "A" exOne) (.cons (.item 1 "E" "B" exOne) .nil))]
+        [("E", "A"), ("E", "B")])).1 = false ∧
+    check (exP.plug (.match_ 13 (.id 13 "e") (.cons (.item 14 "E" "A" exOne) .nil))) = .error ⟨13, .matchMissing⟩ :=
+  rejects_missing_enumerator exP exΓ 13 _ _ _ ⟨.val (.enum "E"), .const⟩ "E" [⟨.val .int, .temp⟩] "B" _ _
+    exP_reaches rfl rfl rfl rfl rfl (by decide) rfl
+
 end Never.C06
